@@ -331,6 +331,49 @@ impl TerminalRenderer {
             }
         }
 
+        // Area under images that are going to be rendered is erased and covered
+        // by the image, there is no need to render characters there.
+        for (pos, _, image) in self.images.iter() {
+            let size = image.size_cells(self.size.pixels_per_cell());
+            self.marks
+                .view_mut(
+                    pos.row..pos.row + size.height,
+                    pos.col..pos.col + size.width,
+                )
+                .fill(CellMark::Ignored);
+        }
+
+        // Cell right after a wide character is not displayed (it is covered by the wide
+        // character), replace it with a marker. This way back buffer reflects what is
+        // actually shown, and the cell is repainted once wide character is gone.
+        for row in 0..self.front.height() {
+            let mut col = 0;
+            while col + 1 < self.front.width() {
+                let offset = self.front.shape().offset(Position::new(row, col));
+                let shadow_offset = self.front.shape().offset(Position::new(row, col + 1));
+                let face = match &self.front.data()[offset] {
+                    Cell {
+                        kind: CellKind::Char(character),
+                        face,
+                    } if character.width() == Some(2)
+                        && self.marks.data()[offset] != CellMark::Ignored =>
+                    {
+                        *face
+                    }
+                    _ => {
+                        col += 1;
+                        continue;
+                    }
+                };
+                if self.marks.data()[shadow_offset] != CellMark::Ignored
+                    && !matches!(self.front.data()[shadow_offset].kind, CellKind::Image(_))
+                {
+                    self.front.data_mut()[shadow_offset] = Cell::new_char(face, '\0');
+                }
+                col += 2;
+            }
+        }
+
         // Second pass
         //
         // Render or characters
